@@ -272,7 +272,7 @@ def run(ctx, rep):
     rep.consult(m.loc(PAR, pi) + ' ParseTable.__init__')
     itl = _IL(dict(Notation={'polish': 'NOTATION-POLISH'}, Operator=OperatorM, Quantifier=QuantM, Predicate=_OL('Predicate', System=SystemM), MapProxy=dict,
                    super=lambda *a: sup), where='lang/parsing.py ParseTable.__init__')
-    tab = _OL('table', _keydefaults={WS: (WS, 0), 'absent-key': ('absent', 0)})
+    tab = _OL('table', __srcclass__=(m, ClassRef(PAR, 'ParseTable')), _keydefaults={WS: (WS, 0), 'absent-key': ('absent', 0)})
     r = itl.safe(pi, [tab, data])
     rev = getattr(tab, 'reversed', None) or {}
     ok = r is None and captured == [mapping] and getattr(tab, 'notation', None) == 'NOTATION-POLISH' and getattr(tab, 'dialect', None) == 'default' and \
@@ -287,7 +287,7 @@ def run(ctx, rep):
     sup = _OL('super', __init__=lambda x=None: captured.append(x))
     itl = _IL(dict(Notation={'polish': 'NOTATION-POLISH'}, super=lambda *a: sup, MapProxy=dict), where='lang/writing.py StringTable.__init__')
     strings = {'k1': 'one', 'k2': 'two', ('d', 0): 'dflt', 'given': 'explicit', ('g', 0): 'not-used'}
-    st = _OL('strings', _keydefaults={'alias': ('d', 0), 'given': ('g', 0)}, _compute_hash=lambda: 'HASH')
+    st = _OL('strings', __srcclass__=(m, ClassRef(WR, 'StringTable')), _keydefaults={'alias': ('d', 0), 'given': ('g', 0)}, _compute_hash=lambda: 'HASH')
     r = itl.safe(si, [st, {'format': 'text', 'notation': 'polish', 'strings': tuple(strings.items())}])
     want = dict(strings, alias='dflt')
     ok = r is None and captured == [want] and getattr(st, 'format', None) == 'text' and getattr(st, 'notation', None) == 'NOTATION-POLISH' and getattr(st, 'dialect', None) == 'text'
